@@ -18,7 +18,27 @@ from . import worldgen
 
 REPO = os.environ.get("VERIF_REPO", "/repo")
 PYTHON = sys.executable
+# The PYTHONHASHSEED values of the zygotes.  Set once per invocation by set_hash_seeds()
+# (before any plan is generated): "0" (hash randomisation off) plus values derived from
+# VERIF_SEED, so that different seeds explore different symbol numberings.  A plan stores
+# the list it was generated for; replay restores it.
 HASH_SEEDS = ["0", "1", "2", "3"]
+
+
+def set_hash_seeds(seed: int, tier: str = "quick", explicit=None) -> None:
+    from .prng import Rng
+    global HASH_SEEDS
+    if explicit:
+        HASH_SEEDS[:] = [str(x) for x in explicit]
+        return
+    n = 6 if tier == "quick" else 16
+    r = Rng(seed).fork("hash-seeds")
+    vals = ["0"]
+    while len(vals) < n:
+        v = str(1 + r.below(4294967294))
+        if v not in vals:
+            vals.append(v)
+    HASH_SEEDS[:] = vals
 SESSION_TIMEOUT_S = float(os.environ.get("VERIF_SESSION_TIMEOUT", "180"))
 VERIF_DIR = os.path.dirname(os.path.dirname(os.path.abspath(__file__)))
 
@@ -34,7 +54,8 @@ class SimHost:
     """Owns the scratch directory and the zygotes of one check invocation."""
 
     def __init__(self, debug: bool = False) -> None:
-        self.base = os.path.join(_scratch_root(), f"hta-sim-{os.getpid()}-{int(time.time() * 1000) % 100000}")
+        # fixed-width names: path lengths leak into byte counts (zip headers), so they must not vary
+        self.base = os.path.join(_scratch_root(), f"hta-sim-{os.getpid() % 10000000:07d}-{int(time.time() * 1000) % 100000:05d}")
         os.makedirs(self.base, exist_ok=True)
         self.debug = debug
         self.zygotes: List[subprocess.Popen] = []
@@ -152,7 +173,7 @@ def execute_plan(info: Dict[str, Any], plan: Dict[str, Any]) -> Dict[str, Any]:
     """Materialise the plan's world in a fresh scratch directory, run its sessions in order
     (each in a new interpreter life under the zygote it names) and return the event logs."""
     _NONCE[0] += 1
-    nonce = f"x{os.getpid()}n{_NONCE[0]}"
+    nonce = f"x{os.getpid() % 10000000:07d}n{_NONCE[0] % 1000000:06d}"
     run_dir = os.path.join(info["base"], nonce)
     world_dir = os.path.join(run_dir, "w")
     os.makedirs(world_dir, exist_ok=True)
@@ -196,6 +217,7 @@ def op_results(session: Dict[str, Any]) -> List[Dict[str, Any]]:
                 cur["msg"] = ev.get("msg")
                 cur["where"] = ev.get("where")
                 cur["killed"] = bool(ev.get("killed"))
+                cur["skipped"] = bool(ev.get("skipped"))
         elif cur is not None:
             cur["events"].append(ev)
     return out
